@@ -26,6 +26,7 @@ type c08Case struct {
 	AsFile  []int         `json:"asFile,omitempty"`  // pre-order indexes of node paths present as regular files
 	Extra   []ops.FSEntry `json:"extra,omitempty"`   // extra entries, relative to the target
 	History string        `json:"history,omitempty"` // "", mkdir (state produced by Mkdir of the same forest with Exts)
+	NoTarget bool         `json:"noTarget,omitempty"` // the target directory itself does not exist
 	Exts    []string      `json:"exts,omitempty"`
 }
 
@@ -133,6 +134,9 @@ func c08Check(c c08Case) string {
 		cs.FS = &ops.FSSpec{Pre: pre}
 	} else {
 		cs.FS = &ops.FSSpec{Pre: c08State(c)}
+	}
+	if c.NoTarget {
+		cs.FS = &ops.FSSpec{TargetMissing: true}
 	}
 	var res *ops.Result
 	if c.Massive {
@@ -303,6 +307,9 @@ func c08Record(col *collector, c c08Case) {
 	if c.History != "" {
 		cl = append(cl, "mkdir-history")
 	}
+	if c.NoTarget {
+		cl = append(cl, "target-dir-absent")
+	}
 	if c.Target != "" {
 		cl = append(cl, "target:"+c.Target)
 	}
@@ -333,6 +340,10 @@ func c08Gen() *rapid.Generator[c08Case] {
 		if rapid.IntRange(0, 3).Draw(t, "hist") == 0 {
 			c.History = "mkdir"
 			c.Exts = genExts(f.Names()).Draw(t, "exts")
+			return c
+		}
+		if rapid.IntRange(0, 9).Draw(t, "noTarget") == 0 {
+			c.NoTarget = true
 			return c
 		}
 		n := model.Merge(f).Count()
